@@ -1297,13 +1297,12 @@ func (c *Ctx) LexerInputIsTheText(ob *core.Obligation, parse *ssa.Function) {
 		return
 	}
 	n := 0
-	for _, ci := range core.Calls(parse) {
-		o := core.CalleeObj(ci.Common())
-		if o == nil || o.Pkg() == nil || !strings.Contains(o.Pkg().Path(), "antlr") || o.Name() != "NewInputStream" {
-			continue
-		}
+	for _, site := range c.callsThroughHelpers(parse, func(o types.Object) bool {
+		return o.Pkg() != nil && strings.Contains(o.Pkg().Path(), "antlr") && o.Name() == "NewInputStream"
+	}) {
+		ci := site.call
 		n++
-		if resolveLocal(ci.Common().Args[0]) == ssa.Value(text) {
+		if site.actual(resolveLocal(ci.Common().Args[0])) == ssa.Value(text) {
 			ob.Pass(key, c.P.Pos(ci.Pos()), "the lexer reads the text parameter itself")
 		} else {
 			ob.Fail(key, c.P.Pos(ci.Pos()), "the lexer is given something other than the text the caller passed ("+core.ShortVal(ci.Common().Args[0])+"): tokens and positions no longer describe the caller's text")
